@@ -77,6 +77,63 @@ def run_respondent(raw, cuts, framing):
     return out
 
 
+def run_respondent_reuse(first, second, cuts, mode):
+    """One Respondent parses two event-stream responses one after the other, set up in between the way the Patron does
+    it; returns the events of the second response.
+      mode "reconnect": the first stream (read until close) is cut off where `first` ends -- possibly in the middle of
+                        a line --, the parser is closed, run to its end and made again; new connection, empty buffer
+      mode "keepalive": the first response is chunked and ends with its last chunk (possibly in the middle of an
+                        event); the second response follows on the same connection
+      mode "keepalive+plain": ... with an ordinary Content-Length response in between"""
+    from ioflo.aio.http import clienting
+    head = b"HTTP/1.1 200 OK\r\nContent-Type: text/event-stream\r\n"
+    r = clienting.Respondent(msg=bytearray(), method="GET")
+    out = {"exc": None, "calls": 0}
+
+    def feed(data, n=2):
+        r.msg.extend(data)
+        for _ in range(n):
+            r.parse()
+            out["calls"] += 1
+    try:
+        if mode == "reconnect":
+            feed(head + b"\r\n" + first)
+            r.close()                       # Patron.serviceAll on a cut off connection
+            for _ in range(6):
+                r.parse()
+                if r.ended:
+                    break
+            r.makeParser()                  # Patron.serviceResponse once the response ended
+            del r.msg[:]
+        else:
+            feed(head + b"Transfer-Encoding: chunked\r\n\r\n" + (b"%x\r\n%s\r\n" % (len(first), first) if first else b"") + b"0\r\n\r\n", 3)
+            if not r.ended:
+                out["exc"] = "first-response-not-ended"
+                out["msg"] = "the chunked first response did not end"
+                return out
+            r.makeParser()
+            if mode == "keepalive+plain":
+                r.reinit(method="GET")      # Patron.transmit for the next request
+                feed(b"HTTP/1.1 200 OK\r\nContent-Length: 5\r\nContent-Type: text/plain\r\n\r\nhello", 3)
+                if not r.ended:
+                    out["exc"] = "plain-response-not-ended"
+                    out["msg"] = "the Content-Length response in between did not end"
+                    return out
+                r.makeParser()
+        r.reinit(method="GET")              # Patron.transmit for the next request
+        before = len(r.events)
+        pieces = hg.cut(second, cuts)
+        feed(head + b"Transfer-Encoding: chunked\r\n\r\n" + b"%x\r\n%s\r\n" % (len(pieces[0]), pieces[0]))
+        for p_ in pieces[1:]:
+            feed(b"%x\r\n%s\r\n" % (len(p_), p_))
+        out["events"] = [(e["id"] or "", e["name"], e["data"]) for e in list(r.events)[before:]]
+        out["evented"] = bool(r.evented)
+    except Exception as ex:
+        out["exc"] = exc_key(ex)
+        out["msg"] = "%s: %s" % (type(ex).__name__, str(ex)[:100])
+    return out
+
+
 def same(a, ref):
     return a["exc"] is None and (a["events"], a["leid"], a["retry"]) == ref
 
@@ -168,6 +225,26 @@ def check_stream(ctx, s, rng, nrandom, deadline):
                       "sse/respondent-vs-eventsource/" + framing,
                       "events delivered through the client Respondent (%s body) differ from EventSource alone" % framing,
                       lambda: wit({"cuts": list(cuts), "framing": framing, "respondent": got, "eventsource": whole}))
+    if n > SHORT:
+        # the same Respondent object used for a second event stream: what the first one left behind (an unfinished line,
+        # an unfinished event, its parser) is none of the second stream's business
+        for mode in ("reconnect", "keepalive", "keepalive+plain"):
+            k = rng.randint(0, n)
+            first = raw[:k] if rng.random() < 0.85 else raw[:k].rstrip(b"\r\n")
+            cuts = hg.random_split(rng, n)
+            got = run_respondent_reuse(first, raw, cuts, mode)
+            ctx.hit("respondent_reused_for_a_second_stream")
+            ctx.hit("reuse_" + mode)
+            ctx.event(got["calls"])
+            count += 1
+            if got["exc"]:
+                ctx.fail("sse/respondent-reuse/exception/" + got["exc"], "Respondent raises when reused for a second event stream: " + got["msg"],
+                         wit({"mode": mode, "first_stream": first, "cuts": list(cuts)}))
+                continue
+            ctx.check(got["evented"] and got["events"] == whole["events"], "sse/respondent-reuse/" + mode,
+                      "events of the second stream parsed by a reused Respondent (%s) differ from the events of that stream" % mode,
+                      lambda: wit({"mode": mode, "first_stream": first, "cuts": list(cuts), "second_stream_events": got["events"],
+                                   "expected": whole["events"]}))
     ctx.evaluations += count
     ctx.hit("split_cases", count)
     ctx.case(digest(jsonable(raw)), nontrivial=bool(ref[0]) and multi > 0)
@@ -213,6 +290,7 @@ def run(ctx):
              "nrandom": ctx.pick(40, 120), "budget": ctx.pick(25, 900)} for j in range(njobs)]
     ctx.shard(jobs, timeout=ctx.pick(60, 1500))
     ctx.floor("split_cases", ctx.pick(35000, 2400000))
+    ctx.floor("respondent_reused_for_a_second_stream", ctx.pick(600, 100000))
     ctx.floor("distinct_nontrivial", ctx.pick(120, 12000))
     ctx.floor("short_streams_exhaustive", ctx.pick(25, 1500))
     ctx.floor("cut_between_cr_and_lf", ctx.pick(3000, 200000))
